@@ -112,8 +112,11 @@ func Float(cfg ValCfg) *rapid.Generator[interface{}] {
 			return float64(rapid.IntRange(-4, 12).Draw(t, "fsmall")) + rapid.SampledFrom([]float64{0, 0.5}).Draw(t, "half")
 		}
 		f := rapid.SampledFrom(floats).Draw(t, "f")
-		if cfg.NoNegZero && f == 0 {
+		if (cfg.NoNegZero || cfg.JSONSafe) && f == 0 {
 			return float64(0)
+		}
+		if cfg.JSONSafe && (f > 1<<53 || f < -(1<<53) || (f != 0 && f < 1e-9 && f > -1e-9)) {
+			return 1.5
 		}
 		return f
 	})
